@@ -32,6 +32,13 @@ class ExtractError(Exception):
     pass
 
 
+def repo_tag(repo):
+    """cache namespace of a source tree: the real /repo, or one per scratch copy (never shared: two trees must not share
+    a cargo target dir or a fact directory)"""
+    a = os.path.abspath(repo)
+    return 'repo' if a == '/repo' else 'scratch-' + hashlib.sha256(a.encode()).hexdigest()[:10]
+
+
 def nightly_sysroot():
     return subprocess.check_output(['rustc', '+nightly', '--print', 'sysroot'], text=True).strip()
 
@@ -81,7 +88,7 @@ def _rm_member_fingerprints(target_dir):
 def facts_path(config='full', repo=REPO, want_hash=None):
     """Returns the path of an up-to-date fact file for `tarpc` under `config`, extracting if needed."""
     ensure_driver()
-    tag = 'repo' if os.path.abspath(repo) == os.path.abspath(REPO) else hashlib.sha256(os.path.abspath(repo).encode()).hexdigest()[:10]
+    tag = repo_tag(repo)
     out_dir = os.path.join(CACHE, 'facts', tag, config)
     os.makedirs(out_dir, exist_ok=True)
     lock = open(os.path.join(CACHE, 'facts', '.lock-%s-%s' % (tag, config)), 'w')
@@ -147,7 +154,7 @@ def harness_facts(name, lib_rs, repo=REPO, features=('serde1',), extra_dev=None)
     """Compiles a generated harness crate `name` (path-depending on repo/tarpc) under the driver and returns the
     path of its fact file.  Cached by (tree hash, source text)."""
     ensure_driver()
-    tag = 'repo' if os.path.abspath(repo) == os.path.abspath(REPO) else hashlib.sha256(os.path.abspath(repo).encode()).hexdigest()[:10]
+    tag = repo_tag(repo)
     base = os.path.join(CACHE, 'harness', tag, name)
     os.makedirs(os.path.join(base, 'src'), exist_ok=True)
     lock = open(os.path.join(CACHE, 'harness', '.lock-%s-%s' % (tag, name)), 'w')
